@@ -324,6 +324,24 @@ func pitPolarity(info *types.Info, facts []astx.Fact) int {
 		if be, ok := ast.Unparen(f.Cond).(*ast.BinaryExpr); ok && be.Op == token.LAND && notUse(be.X) && notUse(be.Y) && !f.Positive {
 			return 1
 		}
+		// !(opts.PIT != nil && !opts.PIT.IsZero()): the spelled-out UsePIT(), negated
+		if be, ok := ast.Unparen(f.Cond).(*ast.BinaryExpr); ok && be.Op == token.LAND && !f.Positive {
+			if l, ok := ast.Unparen(be.X).(*ast.BinaryExpr); ok && l.Op == token.NEQ && astx.IsNilExpr(info, l.Y) {
+				lp := astx.SelectorPath(l.X)
+				if strings.HasSuffix(lp, ".PIT") || strings.HasSuffix(lp, ".OOT") {
+					if r, ok := ast.Unparen(be.Y).(*ast.UnaryExpr); ok && r.Op == token.NOT {
+						if call, ok := ast.Unparen(r.X).(*ast.CallExpr); ok {
+							if se, ok := call.Fun.(*ast.SelectorExpr); ok && se.Sel.Name == "IsZero" && astx.SelectorPath(se.X) == lp {
+								if res == 0 {
+									res = -1
+								}
+								continue
+							}
+						}
+					}
+				}
+			}
+		}
 		isPIT := isUse(f.Cond)
 		if !isPIT {
 			// opts.PIT != nil  (split into == nil negative by splitFact)
@@ -359,32 +377,50 @@ func ruleUnwindingLoop(c *core.Ctx) {
 	// tx.PostCommitVolumes = X.Copy()
 	var pcvAssign *ast.AssignStmt
 	var loop *ast.RangeStmt
+	var loopD *astx.DeclInfo
 	ast.Inspect(d.Decl.Body, func(n ast.Node) bool {
-		switch x := n.(type) {
-		case *ast.AssignStmt:
+		if x, ok := n.(*ast.AssignStmt); ok {
 			if len(x.Lhs) == 1 && strings.HasSuffix(astx.SelectorPath(x.Lhs[0]), ".PostCommitVolumes") && pcvAssign == nil {
 				pcvAssign = x
-			}
-		case *ast.RangeStmt:
-			if loop == nil {
-				// the loop that builds moves
-				hasMove := false
-				ast.Inspect(x.Body, func(y ast.Node) bool {
-					if cl, ok := y.(*ast.CompositeLit); ok && astx.RecvTypeName(info.TypeOf(cl)) == "Move" {
-						hasMove = true
-					}
-					return true
-				})
-				if hasMove {
-					loop = x
-				}
 			}
 		}
 		return true
 	})
+	inScope(fnScope(c, d, 1), func(sd *astx.DeclInfo) {
+		ast.Inspect(sd.Decl.Body, func(n ast.Node) bool {
+			x, ok := n.(*ast.RangeStmt)
+			if !ok || loop != nil {
+				return true
+			}
+			// the loop that builds moves
+			hasMove := false
+			ast.Inspect(x.Body, func(y ast.Node) bool {
+				if cl, ok := y.(*ast.CompositeLit); ok && astx.RecvTypeName(info.TypeOf(cl)) == "Move" {
+					hasMove = true
+				}
+				return true
+			})
+			if hasMove {
+				loop, loopD = x, sd
+			}
+			return true
+		})
+	})
 	if pcvAssign == nil || loop == nil {
-		c.Unknown("FLOW/unwinding", key+":anchors", pos(c, d.Decl), "assignment of tx.PostCommitVolumes or the move-building loop not found")
+		c.Unrecognised("FLOW/unwinding", key+":anchors", pos(c, d.Decl), "assignment of tx.PostCommitVolumes or the move-building loop not found in CommitTransaction or its direct helpers")
 		return
+	}
+	// where the loop runs, seen from CommitTransaction
+	loopAt := loop.Pos()
+	if loopD != d {
+		loopAt = token.NoPos
+		for _, site := range callsTo(info, d.Decl.Body, func(f *types.Func) bool { return f == loopD.Obj }) {
+			loopAt = site.Pos()
+		}
+		if loopAt == token.NoPos {
+			c.Unrecognised("FLOW/unwinding", key+":anchors", pos(c, d.Decl), "call of the move-building helper not found")
+			return
+		}
 	}
 	isCopy := false
 	if call, ok := pcvAssign.Rhs[0].(*ast.CallExpr); ok {
@@ -392,17 +428,35 @@ func ruleUnwindingLoop(c *core.Ctx) {
 			isCopy = true
 		}
 	}
-	c.Check(isCopy && pcvAssign.End() < loop.Pos(), "FLOW/unwinding", key+":pcv-copied-before-unwinding", pos(c, pcvAssign),
+	c.Check(isCopy && pcvAssign.End() < loopAt, "FLOW/unwinding", key+":pcv-copied-before-unwinding", pos(c, pcvAssign),
 		"tx.PostCommitVolumes = pcv.Copy() before the loop", "tx.PostCommitVolumes must be a Copy() taken before the unwinding loop: otherwise the loop's subtractions rewrite the transaction's post-commit volumes into pre-commit ones")
 	// loop ranges over a private, reversed copy of tx.Postings
-	rng := astx.SelectorPath(loop.X)
+	var rngObj, movesObj types.Object
+	if id, ok := ast.Unparen(loop.X).(*ast.Ident); ok {
+		rngObj = info.ObjectOf(id)
+	}
+	ast.Inspect(loop.Body, func(n ast.Node) bool {
+		if as, ok := n.(*ast.AssignStmt); ok && len(as.Lhs) == 1 && len(as.Rhs) == 1 {
+			if call, ok := as.Rhs[0].(*ast.CallExpr); ok {
+				if id, ok := call.Fun.(*ast.Ident); ok && id.Name == "append" {
+					if l, ok := as.Lhs[0].(*ast.Ident); ok {
+						movesObj = info.ObjectOf(l)
+					}
+				}
+			}
+		}
+		return true
+	})
+	isVar := func(e ast.Expr, obj types.Object) bool {
+		id, ok := ast.Unparen(e).(*ast.Ident)
+		return ok && obj != nil && info.ObjectOf(id) == obj
+	}
 	private, reversed, copied := false, false, false
 	movesReversed := false
-	var insertMoves *ast.CallExpr
-	ast.Inspect(d.Decl.Body, func(n ast.Node) bool {
+	ast.Inspect(loopD.Decl.Body, func(n ast.Node) bool {
 		switch x := n.(type) {
 		case *ast.AssignStmt:
-			if len(x.Lhs) == 1 && astx.SelectorPath(x.Lhs[0]) == rng && x.Tok == token.DEFINE {
+			if len(x.Lhs) == 1 && isVar(x.Lhs[0], rngObj) && x.Tok == token.DEFINE {
 				if call, ok := x.Rhs[0].(*ast.CallExpr); ok {
 					if id, ok := call.Fun.(*ast.Ident); ok && id.Name == "make" {
 						private = true
@@ -410,27 +464,36 @@ func ruleUnwindingLoop(c *core.Ctx) {
 				}
 			}
 		case *ast.CallExpr:
-			if id, ok := x.Fun.(*ast.Ident); ok && id.Name == "copy" && len(x.Args) == 2 && astx.SelectorPath(x.Args[0]) == rng && strings.HasSuffix(astx.SelectorPath(x.Args[1]), ".Postings") && x.End() < loop.Pos() {
+			if id, ok := x.Fun.(*ast.Ident); ok && id.Name == "copy" && len(x.Args) == 2 && isVar(x.Args[0], rngObj) && strings.HasSuffix(astx.SelectorPath(x.Args[1]), ".Postings") && x.End() < loop.Pos() {
 				copied = true
 			}
 			if f := astx.Callee(info, x); f != nil && f.Pkg() != nil && f.Pkg().Path() == "slices" && f.Name() == "Reverse" && len(x.Args) == 1 {
-				a := astx.SelectorPath(x.Args[0])
-				if a == rng && x.End() < loop.Pos() {
+				if isVar(x.Args[0], rngObj) && x.End() < loop.Pos() {
 					reversed = true
 				}
-				if a == "moves" && x.Pos() > loop.End() {
+				if isVar(x.Args[0], movesObj) && x.Pos() > loop.End() {
 					movesReversed = true
 				}
-			}
-			if f := astx.Callee(info, x); f != nil && f.Name() == "InsertMoves" {
-				insertMoves = x
 			}
 		}
 		return true
 	})
-	c.Check(private && copied && reversed, "FLOW/unwinding", key+":iterates-reversed-private-copy", pos(c, loop),
-		"postings := make; copy(postings, tx.Postings); slices.Reverse(postings)", fmt.Sprintf("the unwinding loop must iterate a reversed private copy of tx.Postings (private=%v copied=%v reversed=%v): unwinding in forward order gives wrong per-move volumes, reversing tx.Postings in place changes the stored transaction", private, copied, reversed))
-	c.Check(movesReversed && insertMoves != nil && insertMoves.Pos() > loop.End(), "FLOW/unwinding", key+":moves-reversed-back", pos(c, loop),
+	var insertMoves *ast.CallExpr
+	for _, call := range callsTo(info, d.Decl.Body, named("InsertMoves")) {
+		insertMoves = call
+	}
+	if rngObj == nil {
+		// ranging directly over tx.Postings (or an expression): positive evidence only when it is the stored slice
+		if strings.HasSuffix(astx.SelectorPath(loop.X), ".Postings") {
+			c.Fail("FLOW/unwinding", key+":iterates-reversed-private-copy", pos(c, loop), "the unwinding loop iterates tx.Postings itself, in forward order: unwinding must walk a reversed private copy")
+		} else {
+			c.Unrecognised("FLOW/unwinding", key+":iterates-reversed-private-copy", pos(c, loop), "the unwinding loop ranges over an expression the rule does not read")
+		}
+	} else {
+		c.Check(private && copied && reversed, "FLOW/unwinding", key+":iterates-reversed-private-copy", pos(c, loop),
+			"postings := make; copy(postings, tx.Postings); slices.Reverse(postings)", fmt.Sprintf("the unwinding loop must iterate a reversed private copy of tx.Postings (private=%v copied=%v reversed=%v): unwinding in forward order gives wrong per-move volumes, reversing tx.Postings in place changes the stored transaction", private, copied, reversed))
+	}
+	c.Check(movesReversed && insertMoves != nil && insertMoves.Pos() > loopAt, "FLOW/unwinding", key+":moves-reversed-back", pos(c, loop),
 		"slices.Reverse(moves) before InsertMoves", "the moves are not reversed back into posting order before InsertMoves (seq order would be the reverse of the postings)")
 	// inside the loop: snapshots and subtractions
 	type step struct {
